@@ -123,7 +123,7 @@ func c07(c *Ctx) {
 	if c.Thorough() {
 		maxArgs = 3
 	}
-	c.Rule = fmt.Sprintf("exhaustive: every function of ListFunctions() x %d receiver kinds x every argument tuple of length 0..%d over the pool %v, receiver under a key (`$.r.F(args)`) and, for tuples of length <=1, as the root (`$.F(args)`); random: composite queries (chains, filters, groups, Select) over random carriers. Non-trivial = the call reaches the function (parses); distinct by (query, data).", len(receiversC07()), maxArgs, argPoolC07)
+	c.Rule = fmt.Sprintf("exhaustive: every function of ListFunctions() x %d receiver kinds (maps keyed by mixed kinds / nil / ints / bools / floats, structs nesting by value a struct with an unexported field, arrays and slices of such structs included) x every argument tuple of length 0..%d over the pool %v, receiver under a key (`$.r.F(args)`) and, for tuples of length <=1, as the root (`$.F(args)`); random: composite queries (chains, filters, groups, Select) over random carriers. Non-trivial = the call reaches the function (parses); distinct by (query, data).", len(receiversC07()), maxArgs, argPoolC07)
 	names := funcNames()
 	recvs := receiversC07()
 	var tuples [][]string
